@@ -481,7 +481,7 @@ def _mirsmt_drivers(keys):
         for f in r["findings"]:
             k = f.key.split(":", 1)[1]
             if any(k.startswith(p) for p in keys):
-                f.native_kind = "c07" if k.startswith("spi-") else ("c06" if k.startswith("vm-") else ("gs" if k.startswith("gs-") else "xdriver"))
+                f.native_kind = "c10" if "chance-reset" in k else "c07" if k.startswith("spi-") else ("c06" if k.startswith("vm-") else ("gs" if k.startswith("gs-") else "xdriver"))
                 keep.append(f)
         r["findings"] = keep
         r["obligations"] = [o for o in r["obligations"] if any(o[1].startswith(p) for p in keys)]
@@ -491,7 +491,7 @@ def _mirsmt_drivers(keys):
 
 REGISTRY["C08"]["parts"] = [_mirsmt_drivers(["xs-", "gs-default", "gs-dispatch", "gs-budget", "gs-threshold", "gs-player"])]
 REGISTRY["C05"]["parts"] = [_mirsmt_drivers(["gs-one-thread", "gs-thread-overflow"])]
-REGISTRY["C10"]["parts"] = [_mirsmt_drivers(["gs-dispatch"])]
+REGISTRY["C10"]["parts"] = [_mirsmt_drivers(["gs-dispatch", "vs-chance-reset", "vm-chance-reset", "xs-call-counts"])]
 REGISTRY["C09"]["parts"] = [_mirsmt_drivers(["xs-stop", "xs-iteration", "xs-call-counts", "xs-order"])]
 REGISTRY["C07"]["parts"] = [_mirsmt_drivers(["spi-"])]
 REGISTRY["C06"]["parts"] = [_mirsmt_drivers(["vm-"])]
@@ -499,7 +499,7 @@ for _p, _t in (("C08", " The external-sampling driver loop (one iteration: pass 
                ("C09", " For the external-sampling driver the stop decision of one iteration is decided by E2 on the library's MIR: the loop leaves exactly when fp.max(b1,b2) < r, for all f64."),
                ("C06", " One iteration of the rayon driver closure of solve_generic_multi is executed symbolically from the library's MIR (E2; inner loop unrolled <= 3): the tasks handed to the pool are thread_threshold's queue, their payoffs go into the cache the cached traversal reads, and that cache is cleared at the end of every iteration."),
                ("C05", " Game::solve's thread-count arithmetic is decided by E2 on the library's MIR (acyclic): with one thread no error path exists; 3 x threads overflowing usize returns SolveError::ThreadOverflow before any solver runs."),
-               ("C10", " The method dispatch of Game::solve is decided by E2 on the library's MIR: each method reaches only its own solver (the unsampled method never reaches a sampling solver)."),
+               ("C10", " The method dispatch of Game::solve is decided by E2 on the library's MIR: each method reaches only its own solver (the unsampled method never reaches a sampling solver). One iteration of each driver loop (solve_generic_single, the solve_generic_multi closure, solve_external_single) shows that after every traversal EVERY chance infoset is advanced - for_each over the whole table the traversal read - so no draw survives into the next pass."),
                ("C07", " The loop-free single_player_iter is decided by E2 on the library's MIR: cut, tasks into the cache, cached traversal, the same cache cleared after every pass, update.")):
     REGISTRY[_p]["explanation"] += _t
     MANIFEST_TEXT[_p]["engine"] = "kani+mirsmt"
